@@ -221,8 +221,10 @@ func propC08(w *World, r *Report, tier string) {
 			}
 		}
 	}
-	if nCopy < 3 {
-		r.Fail("eff.payload-copy-only", FuncName(enc), "copy-back", enc.Pos(), fmt.Sprintf("only %d algorithm arms copy the cipher output over the payload (want 3)", nCopy), nil)
+	// (that each of the three algorithm identities ends with the cipher output in the payload is
+	// decided per identity by C06 wrap.args; how many copy statements do it is not a property)
+	if nCopy < 1 {
+		r.Fail("eff.payload-copy-only", FuncName(enc), "copy-back", enc.Pos(), "the cipher output is never copied over the payload", nil)
 	}
 	// ---- key and message never modified (E4)
 	r.Site("eff.msg-readonly")
